@@ -294,3 +294,90 @@ def _selrnd(ctx, rng, par):
         obj_trans=world._sumtr, rng=rng, soalgo=SortingSubsetOptimizationAlgorithm())
     cfg = p.select(pgmat=ctx.pg, gmat=ctx.pg, ptdf=None, bvmat=ctx.bv, gpmod=ctx.gm, t_cur=0, t_max=5)
     return [cfg.xconfig_decn, cfg.sample_xconfig(return_xconfig=True)]
+
+
+# ---- objects that outlive a re-seeding -----------------------------------------------------------
+# Built BEFORE prng.seed(s) (during the prior history) and used after it: their stochastic behaviour must follow
+# the re-seeded global generator exactly as a freshly built object's would.
+import copy as _copy
+
+PERSIST = {}
+
+
+def preg(name):
+    def deco(f):
+        PERSIST[name] = f
+        return f
+    return deco
+
+
+@preg("pt")
+def _p_pt(ctx):
+    pt = G_E_Phenotyping(ctx.gm, nenv=2, nrep=1, var_env=0.5, var_rep=0.2, var_err=1.0)
+    return pt, lambda c, o: [o.phenotype(c.pg)[col].to_numpy() for col in ("taxa", "env", "rep", str(c.gm.trait[0]))]
+
+
+@preg("pt.deepcopy")
+def _p_ptd(ctx):
+    o, use = _p_pt(ctx)
+    return _copy.deepcopy(o), use
+
+
+@preg("pt.copy")
+def _p_ptc(ctx):
+    o, use = _p_pt(ctx)
+    return _copy.copy(o), use
+
+
+def _use_mate(c, o):
+    xc = numpy.array([[0, 1], [1, 2 % c.nt]])
+    p = o.mate(c.pg, xc, 1, 2)
+    return [p.mat]
+
+
+@preg("mate")
+def _p_mate(ctx):
+    return TwoWayCross(progeny_counter=0, family_counter=0), _use_mate
+
+
+@preg("mate.deepcopy")
+def _p_mated(ctx):
+    return _copy.deepcopy(TwoWayCross(progeny_counter=0, family_counter=0)), _use_mate
+
+
+def _use_cfg(c, o):
+    return [o.sample_xconfig(return_xconfig=True)]
+
+
+@preg("xconfig")
+def _p_cfg(ctx):
+    decn = numpy.arange(min(3, ctx.nt))
+    return SubsetSelectionConfiguration(ncross=3, nparent=2, nmating=1, nprogeny=1, pgmat=ctx.pg, xconfig_decn=decn), _use_cfg
+
+
+@preg("xconfig.deepcopy")
+def _p_cfgd(ctx):
+    o, use = _p_cfg(ctx)
+    return _copy.deepcopy(o), use
+
+
+@preg("hillclimber")
+def _p_hc(ctx):
+    return SteepestDescentSubsetHillClimber(), lambda c, o: _soln(o.minimize(world.ebv_problem("subset", c.ebv, nobj=1)))
+
+
+@preg("ga.real")
+def _p_ga(ctx):
+    return RealGeneticAlgorithm(ngen=2, pop_size=6), lambda c, o: _soln(o.minimize(world.ebv_problem("real", c.ebv, nobj=1)))
+
+
+@preg("select.ebv")
+def _p_sel(ctx):
+    p = EBVS.EstimatedBreedingValueSubsetSelection(
+        ntrait=2, unscale=True, ncross=2, nparent=2, nmating=1, nprogeny=2, nobj=1, obj_wt=numpy.array([1.0]),
+        obj_trans=world._sumtr, soalgo=SortingSubsetOptimizationAlgorithm())
+
+    def use(c, o):
+        cfg = o.select(pgmat=c.pg, gmat=c.pg, ptdf=None, bvmat=c.bv, gpmod=c.gm, t_cur=0, t_max=5)
+        return [cfg.xconfig_decn, cfg.sample_xconfig(return_xconfig=True)]
+    return p, use
